@@ -92,6 +92,24 @@ CHECKS['C03'] = ('simnet', 'exploration',
     'callables are invoked exactly once at the virtual instant of the publish.',
     SIMNET_NOTE, '5 C03')
 
+CHECKS['C07'] = ('simnet', 'exploration',
+    'property-based testing on a simulated network: invariants over the wire log (one output endpoint per message id) and the call logs (no frame twice, single id per joined set, strictly increasing)',
+    'Splitter (source or relay, 2-4 balanced outputs) -> workers of generated, unequal speeds -> balanced-sources joiner, optional ?? watchers, all delay classes; every splitter id appears on exactly '
+    'one output endpoint, no frame is processed by two workers, every joiner set holds one id, joiner sequence strictly increasing.',
+    SIMNET_NOTE, '5 C07')
+CHECKS['C05'] = ('simnet', 'exploration',
+    'differential testing on a simulated network: the same generated case is run with and without its ephemeral consumers (link delays keyed per link) and the synchronized sinks are compared; plus wire-log invariants',
+    'Publisher with 1-2 synchronized (required) consumers and 1-3 ?/?? consumers that are slow (up to 50 s per frame), stalled forever or hard-killed, optionally an ephemeral branch rejoined as an '
+    'ephemeral source: synchronized sinks must see the identical sequence in both runs and finish no later than 450 ms after the run without listeners; a ?? listener never sends on a request channel; '
+    'every set an ephemeral consumer gets is complete for its subscription under one id, ids non-decreasing.',
+    SIMNET_NOTE + ' PUB high-water-mark drops towards a stalled listener are not modelled.', '5 C05')
+CHECKS['C04'] = ('simnet', 'exploration',
+    'property-based testing on a simulated network with Hypothesis target() maximising the overrun; bound predicate per (publisher, consumer) edge + metamorphic relation (overrun independent of stall length) + queue-depth bound for N and 4N frames',
+    'A synchronized consumer blocks in its k-th process() (k up to 150) for 0.5-4.8 s (or 6-9 s for the release class) as sole consumer, one of two, or behind a relay, delays < 100 ms: the '
+    'number of data publishes by each publisher after its consumer stopped taking frames is <= 9, unchanged when the stall is doubled; a non-required stalled consumer is dropped after the connection timeout; '
+    'the number of sets queued towards a merely slow consumer is <= 9 at every process() call for N and 4N frames.',
+    SIMNET_NOTE + ' The numeric bound is checked on generated schedules, not proved.', '5 C04')
+
 PENDING = {}
 
 
